@@ -250,6 +250,7 @@ func (e *Engine) loadSpecs(externDir string) error {
 				old.Sweep = append(old.Sweep, f.Sweep...)
 				old.SweepTags = append(old.SweepTags, f.SweepTags...)
 				old.Counted = append(old.Counted, f.Counted...)
+				old.CountedWhen = append(old.CountedWhen, f.CountedWhen...)
 				old.Records = append(old.Records, f.Records...)
 				old.Holds = append(old.Holds, f.Holds...)
 				old.Waive = append(old.Waive, f.Waive...)
